@@ -17,6 +17,8 @@ type Case struct {
 	Frame    []byte // frame-level input (wrapped payload)
 	Mut      bool   // seeded byte mutation of a generated input
 	NeedHook bool   // needs dns_naming.VerifNew
+	NeedAge  bool   // needs dns_naming.VerifAgeMDNSCache
+	vec      *Vector
 	Run      func(e *env, c *Case, res *Result)
 	Exp      *dnsExp // C17 expectation (nil: totality only)
 	wrap     wrapInfo
@@ -68,9 +70,16 @@ func genCases(v *Vector, seed int64, K, M int) []*Case {
 			cs = genARP(v, r, k)
 		case "llc":
 			cs = genLLC(v, r, k)
+		case "mcache":
+			cs = genMcache(v, r, k)
+		case "ping":
+			cs = genPing(v, r, k)
+		}
+		for _, c := range cs {
+			c.vec = v
 		}
 		out = append(out, cs...)
-		if k == 0 {
+		if k == 0 && v.W != "mcache" && v.W != "ping" {
 			// seeded byte mutations of the first encoding of every entry point (round robin)
 			for m := 0; m < M && len(cs) > 0; m++ {
 				base := cs[(m+v.ID)%len(cs)]
